@@ -504,7 +504,7 @@ Section C13.
   Proof.
     intros Hw Hfs Eo Hp Hs HL Hm.
     pose proof (top o sroot Hsrc Hnl fs src dst Hfs) as HT. rewrite Eo in HT.
-    destruct HT as (st' & E1 & I & S & _ & _ & MT & (cr & Hg)).
+    destruct HT as (st' & E1 & I & S & _ & _ & MT & (cr & Hg) & _).
     exists st'. split; auto.
     destruct (inv_init o fs Hfs) as (_ & Hroot & _).
     destruct (overlay_all_single o sroot Hsrc Hnl _ src dst r Hw Hroot Eo)
